@@ -1,13 +1,13 @@
 ---------------------------- MODULE SimBackend_MC ----------------------------
 EXTENDS SimBackend
-CONSTANTS DropStale, TabName, DRes, DFin, DStop, DStart, DCStop, Sleep, Ckpt, MRA, Seed, MaxCalls
+CONSTANTS DropStale, TabName, DRes, DFin, DStop, DStart, DCStop, Sleep, Ckpt, MRA, Seed, MaxCalls, Outs
 \* tab[c][s][l] = <<metric, elapsed ticks>>; unique metrics encode (c, s, l); elapsed columns incl. a
 \* non-monotone one (configuration 2, seed 2)
 Tabs == [ a |-> << << << <<111, 100>>, <<112, 250>>, <<113, 400>> >>, << <<121, 120>>, <<122, 240>>, <<123, 500>> >> >>,
                     << << <<211, 300>>, <<212, 310>>, <<213, 900>> >>, << <<221, 200>>, <<222, 150>>, <<223, 155>> >> >> >>,
           b |-> << << << <<111, 5>>, <<112, 100>> >> >>, << << <<211, 70>>, <<212, 140>> >> >> >> ]
 Conf == [tab |-> Tabs[TabName], dres |-> DRes, dfin |-> DFin, dstop |-> DStop, dstart |-> DStart, dcstop |-> DCStop,
-         sleep |-> Sleep, ckpt |-> Ckpt, mra |-> MRA, eps |-> 1, rep |-> 10, seed |-> Seed, dropstale |-> DropStale]
+         sleep |-> Sleep, ckpt |-> Ckpt, mra |-> MRA, eps |-> 1, rep |-> 10, seed |-> Seed, dropstale |-> DropStale, outs |-> Outs]
 VARIABLE ncalls
 Init == InitCommon(Conf) /\ ncalls = 0
 MCNext == Next /\ ncalls' = ncalls + 1
